@@ -30,6 +30,9 @@ for k,n in sorted(agg.items(), key=lambda x:-x[1]):
         obs = {"ret": ob.get("ret"), "errs": ob.get("errs"), "kind": ob.get("kind"), "size": ob.get("size"), "cap": ob.get("cap"),
                "files": {f: (json.dumps(val.to_py(v["doc"])) if v["doc"]["t"] in "dl" else v["doc"], v["ex"], v["w"]) for f, v in (ob.get("files") or {}).items()}}
         print(n, k, e["cls"], "| init", init, "|", " ; ".join(short(i) for i in e["inputs"]), "| OBS", json.dumps(obs)[:300], "|", e.get("aborted"))
+    elif "program" in e:
+        hist = " ".join((f"{h['t']}:call({h['op']['op']})" if h["e"] == "call" else f"{h['t']}:ret({json.dumps(val.to_py(h['ret'])) if h['ret']['t'] not in ('!','keys','items','self') else h['ret'].get('e', h['ret']['t'])})") for h in e["history"])
+        print(n, k[:2], e["op"], "|", str(e.get("detail"))[:260], "| HIST", hist[:300], "| FINAL", json.dumps(val.to_py(e["final"]))[:120] if e.get("final") and e["final"]["t"] in "dl" else e.get("final"))
     else:
         print(n, k, "|", str(e.get("detail"))[:300], "| lab=", json.dumps(e.get("lab"))[:200], "pre=", json.dumps(e.get("pre"))[:150])
 print("rc", rc)
